@@ -3,6 +3,7 @@
 
 pub mod abi;
 pub mod alloc;
+pub mod events;
 pub mod simk;
 pub mod wakers;
 
